@@ -140,6 +140,12 @@ def flowspec6_update(rng):
 
 def long_flowspec_update(rng):
     """rules around and beyond the 240-octet limit of the 1-octet NLRI length"""
+    if rng.random() < 0.4:
+        # IPv6: 3 (type, length, offset) + 8 prefix octets + 1 + 3 per term: 236..248 octets for 75..79 terms
+        n = rng.choice([60, 74, 75, 76, 77, 78, 79, 80, 120])
+        rule = {1: {'prefix': gen.prefix6(rng, 64, 'rand'), 'offset': 0}, 5: '|'.join('=%d' % (1000 + i) for i in range(n))}
+        rules = [rule] + ([{1: {'prefix': '2001:db8::/32', 'offset': 0}}] if rng.random() < 0.5 else [])
+        return {'attr': {14: {'afi_safi': [2, 133], 'nexthop': '', 'nlri': rules}}}
     n = rng.choice([55, 58, 59, 60, 61, 80, 120])
     rule = {1: gen.prefix4(rng, 24, 'rand'), 5: '|'.join('=%d' % (1000 + i) for i in range(n))}
     return {'attr': {14: {'afi_safi': [1, 133], 'nexthop': '', 'nlri': [rule]}}}
